@@ -42,7 +42,11 @@ class HistEngine(EngineBase):
         self.catalogue = gen_beh.HANDWRITTEN + gen_beh.generated_catalogue(self.catalogue_size)
         self.failing = gen_beh.failing_behaviours()
         self.sub_callers = [t for v in SUB_CALLERS.values() for t in v]
-        self.extra_texts = sorted(set(self.catalogue + self.failing + self.sub_callers + gen_beh.PARSE_ERRORS))
+        self.shapes = gen_beh.callee_shapes()
+        self.shape_keys = sorted(self.shapes)
+        self._focus = None
+        shape_texts = [t for v in self.shapes.values() for t in v]
+        self.extra_texts = sorted(set(self.catalogue + self.failing + self.sub_callers + gen_beh.PARSE_ERRORS + shape_texts))
 
     def corpus_sample(self):
         """Corpus instructions this tier draws from (all of them when the cache is complete)."""
@@ -143,6 +147,11 @@ class HistEngine(EngineBase):
     # ------------------------------------------------------------------ workload pieces
     def gen_input(self, ch: Chooser, want_fail_weight=2):
         """-> (name, parts, origin)"""
+        if self._focus is not None and ch.chance(2, 5, "focused"):
+            # object-focused run: different use-shapes of one shared callee object meet in one history
+            t = ch.choice(self.shapes[self._focus], "shape")
+            if self.tc.data.get(t, ("exc",))[0] == "ok":
+                return "use_" + stable_hash(t)[:8], [t], "shape"
         if self._theme is not None and ch.chance(1, 3, "themed"):
             n = ch.choice(self.themes[self._theme], "theme-insn")
             if isinstance(n, tuple):
